@@ -74,6 +74,19 @@ def sign(e, local=None):
     return None
 
 
+def _less_pairs(test):
+    """{(a, b)} for every comparison meaning a < b (or <=) inside a guard, whatever its spelling."""
+    out = set()
+    for n in ast.walk(test):
+        if isinstance(n, ast.Compare) and len(n.ops) == 1:
+            a, b = norm(n.left), norm(n.comparators[0])
+            if isinstance(n.ops[0], (ast.Lt, ast.LtE)):
+                out.add((a, b))
+            elif isinstance(n.ops[0], (ast.Gt, ast.GtE)):
+                out.add((b, a))
+    return out
+
+
 def deriv_sign(f):
     """Sign of the value returned by a ``deriv`` method (all returns must agree)."""
     local = {}
@@ -201,8 +214,9 @@ def run(tier="quick", root="/repo", evidence_dir=None, quiet=False):
                 and "self.domain" in norm(s.test):
             pre = s
     t = norm(pre.test) if pre is not None else ""
-    lo = f"{gparam}.domain[0] < self.domain[0]" in t
-    hi = f"{gparam}.domain[1] > self.domain[1]" in t
+    cmp_ = _less_pairs(pre.test) if pre is not None else set()
+    lo = (f"{gparam}.domain[0]", "self.domain[0]") in cmp_
+    hi = ("self.domain[1]", f"{gparam}.domain[1]") in cmp_
     first_use = min((n.lineno for n in ast.walk(f.node) if isinstance(n, ast.Call) and norm(n.func) in
                      ("self.transform", "self.deriv")), default=10 ** 9)
     if pre is not None and lo and hi and isinstance(pre.test, ast.BoolOp) and isinstance(pre.test.op, ast.Or) \
@@ -215,8 +229,12 @@ def run(tier="quick", root="/repo", evidence_dir=None, quiet=False):
     # (f) OneDGrid containment check
     init = repo.method("OneDGrid", "__init__")
     txts = [norm(s.test) for s in ast.walk(init.node) if isinstance(s, ast.If) and s.body and isinstance(s.body[-1], ast.Raise)]
-    low = any("domain[0]" in x and ("min_p" in x or "np.min(points)" in x) and ">" in x for x in txts)
-    high = any("domain[1]" in x and ("max_p" in x or "np.max(points)" in x) and "<" in x for x in txts)
+    pairs = set()
+    for s_ in ast.walk(init.node):
+        if isinstance(s_, ast.If) and s_.body and isinstance(s_.body[-1], ast.Raise):
+            pairs |= _less_pairs(s_.test)
+    low = any(("min" in a and "domain[0]" in b) for a, b in pairs)     # min(points) < domain[0] (- tol)
+    high = any(("domain[1]" in a and "max" in b) for a, b in pairs)    # domain[1] (+ tol) < max(points)
     for side, okk in (("lower", low), ("upper", high)):
         if okk:
             rep.ok("f.containment-check-armed", f"basegrid.OneDGrid.__init__[{side}]", init.loc(), "")
